@@ -188,6 +188,24 @@ func (h *SexpHash) DotPathHashGet(env *Zlisp, sym *SexpSymbol) (Sexp, error) {
 	return exp, nil
 }
 
+// unwrapKey: single-element array keys are stored as their element
+// (so that h[6] = 10 works), however deeply they are wrapped: every
+// entry point unwraps the same way, and what is stored never is a
+// one-element array. (Unwrapping once in HashSet and twice on the way
+// through HashGet made [[1]] a key that was counted and listed but
+// not found by hget, the printer, hpair, range or json. A cyclic
+// wrapping cannot happen: it is bounded.)
+func unwrapKey(key Sexp) Sexp {
+	for i := 0; i < 64; i++ {
+		arr, isArray := key.(*SexpArray)
+		if !isArray || len(arr.Val) != 1 {
+			break
+		}
+		key = arr.Val[0]
+	}
+	return key
+}
+
 func (hash *SexpHash) HashGet(env *Zlisp, key Sexp) (res Sexp, err error) {
 	//Q("top of HashGet, key = '%v' of type %T", key.SexpString(nil), key)
 	switch sym := key.(type) {
@@ -208,9 +226,7 @@ func (hash *SexpHash) HashGet(env *Zlisp, key Sexp) (res Sexp, err error) {
 		}
 
 	case *SexpArray:
-		if len(sym.Val) == 1 {
-			key = sym.Val[0]
-		}
+		key = unwrapKey(key)
 	}
 
 	// this is kind of a hack
@@ -231,9 +247,7 @@ func (hash *SexpHash) HashGet(env *Zlisp, key Sexp) (res Sexp, err error) {
 
 func (hash *SexpHash) HashGetDefault(env *Zlisp, key Sexp, defaultval Sexp) (Sexp, error) {
 	// single-element array keys are stored as their element, see HashSet
-	if arr, isArray := key.(*SexpArray); isArray && len(arr.Val) == 1 {
-		key = arr.Val[0]
-	}
+	key = unwrapKey(key)
 	hashval, err := HashExpression(env, key)
 	if err != nil {
 		return SexpNull, err
@@ -399,12 +413,7 @@ func (hash *SexpHash) HashSet(key Sexp, val Sexp) error {
 	if _, isComment := val.(*SexpComment); isComment {
 		return fmt.Errorf("HashSet: val cannot be comment")
 	}
-	if arr, isArray := key.(*SexpArray); isArray {
-		na := len(arr.Val)
-		if na == 1 {
-			key = arr.Val[0] // let single number keys work: h[6]=10
-		}
-	}
+	key = unwrapKey(key) // let single number keys work: h[6]=10
 	if sym, isSym := key.(*SexpSymbol); isSym && sym.isDot {
 		// HashGet reads a dotted symbol as a path into nested
 		// hashes, so an entry stored under one could never be
@@ -455,9 +464,7 @@ func (hash *SexpHash) HashSet(key Sexp, val Sexp) error {
 
 func (hash *SexpHash) HashDelete(key Sexp) error {
 	// single-element array keys are stored as their element, see HashSet
-	if arr, isArray := key.(*SexpArray); isArray && len(arr.Val) == 1 {
-		key = arr.Val[0]
-	}
+	key = unwrapKey(key)
 	hashval, err := HashExpression(nil, key)
 	if err != nil {
 		return err
